@@ -37,6 +37,7 @@ func recoverStr(f func()) (msg string) {
 
 type wctx struct {
 	vm      *goja.Runtime
+	isStruct bool // V lines: the container is a struct with fields F0..Fk-1 of type S (objectGoReflect.valueCache)
 	fixed   bool
 	ptr     reflect.Value // *[]S or *[N]S
 	aobj    goja.Value
@@ -44,6 +45,27 @@ type wctx struct {
 }
 
 func (c *wctx) seq() reflect.Value { return c.ptr.Elem() }
+
+func (c *wctx) n() int {
+	if c.isStruct {
+		return c.seq().NumField()
+	}
+	return c.seq().Len()
+}
+
+func (c *wctx) elem(i int) reflect.Value {
+	if c.isStruct {
+		return c.seq().Field(i)
+	}
+	return c.seq().Index(i)
+}
+
+func (c *wctx) acc(i string) string {
+	if c.isStruct {
+		return "a.F" + i
+	}
+	return "a[" + i + "]"
+}
 
 func (c *wctx) run(src string) (goja.Value, string) {
 	var v goja.Value
@@ -70,17 +92,23 @@ func (c *wctx) observe(v goja.Value) string {
 }
 
 func (c *wctx) dump(pre string) string {
-	s := c.seq()
-	n := s.Len()
+	n := c.n()
 	sl := make([]string, n)
 	for i := 0; i < n; i++ {
-		sl[i] = strconv.FormatInt(s.Index(i).Field(0).Int(), 10)
+		sl[i] = strconv.FormatInt(c.elem(i).Field(0).Int(), 10)
 	}
 	hs := make([]string, len(c.handles))
 	for k, h := range c.handles {
 		hs[k] = h.Get("Field").String()
 	}
 	cache := goja.VerifC13Cache(c.aobj)
+	if c.isStruct {
+		fc := goja.VerifC13FieldCache(c.aobj)
+		cache = make([]*goja.Object, n)
+		for i := 0; i < n; i++ {
+			cache[i] = fc[fmt.Sprintf("F%d", i)]
+		}
+	}
 	cs := make([]string, n)
 	for i := 0; i < n; i++ {
 		cs[i] = "-"
@@ -102,16 +130,16 @@ func (c *wctx) op(tok string) (pre string, panicMsg string) {
 	p := strings.Split(tok, ":")
 	switch p[0] {
 	case "get":
-		v, m := c.run(fmt.Sprintf("a[%s]", p[1]))
+		v, m := c.run(c.acc(p[1]))
 		if m != "" {
 			return "", m
 		}
 		return c.observe(v), ""
 	case "set":
-		_, m := c.run(fmt.Sprintf("a[%s] = {Field: %s}", p[1], p[2]))
+		_, m := c.run(fmt.Sprintf("%s = {Field: %s}", c.acc(p[1]), p[2]))
 		return "", m
 	case "bad":
-		_, m := c.run(fmt.Sprintf("a[%s] = 'zz'", p[1]))
+		_, m := c.run(fmt.Sprintf("%s = 'zz'", c.acc(p[1])))
 		return "", m
 	case "del":
 		_, m := c.run(fmt.Sprintf("delete a[%s]", p[1]))
@@ -131,12 +159,12 @@ func (c *wctx) op(tok string) (pre string, panicMsg string) {
 		return "", ""
 	case "gw":
 		i := atoi(p[1])
-		if i < c.seq().Len() {
-			c.seq().Index(i).Field(0).SetInt(int64(atoi(p[2])))
+		if i < c.n() {
+			c.elem(i).Field(0).SetInt(int64(atoi(p[2])))
 		}
 		return "", ""
 	case "ga":
-		if !c.fixed {
+		if !c.fixed && !c.isStruct {
 			sp := c.ptr.Interface().(*[]S)
 			if len(*sp) < cap(*sp) {
 				*sp = append(*sp, S{atoi(p[1])})
@@ -144,7 +172,7 @@ func (c *wctx) op(tok string) (pre string, panicMsg string) {
 		}
 		return "", ""
 	case "gr":
-		if !c.fixed {
+		if !c.fixed && !c.isStruct {
 			sp := c.ptr.Interface().(*[]S)
 			nc := atoi(p[1])
 			if len(*sp) <= nc {
@@ -156,6 +184,9 @@ func (c *wctx) op(tok string) (pre string, panicMsg string) {
 		return "", ""
 	case "ra":
 		srcs := []string{"JSON.stringify(a)", "[...a].length", "for (var k in a) { a[k]; }"}
+		if c.isStruct {
+			srcs = []string{"JSON.stringify(a)", "({...a})", "for (var k in a) { a[k]; }"}
+		}
 		_, m := c.run(srcs[atoi(p[1])%len(srcs)])
 		return "", m
 	case "nop":
@@ -178,11 +209,11 @@ func (c *wctx) op(tok string) (pre string, panicMsg string) {
 	return "BADOP ", ""
 }
 
-func runW(f []string) string {
+func runW(f []string, isStruct bool) string {
 	if len(f) < 4 || f[3] != "|" {
 		return "BADLINE"
 	}
-	c := &wctx{vm: goja.New(), fixed: f[0] == "1"}
+	c := &wctx{vm: goja.New(), fixed: f[0] == "1", isStruct: isStruct}
 	var vals []int
 	if f[2] != "-" {
 		for _, s := range strings.Split(f[2], ",") {
@@ -190,7 +221,16 @@ func runW(f []string) string {
 		}
 	}
 	n := len(vals)
-	if c.fixed {
+	if isStruct {
+		fs := make([]reflect.StructField, n)
+		for i := range fs {
+			fs[i] = reflect.StructField{Name: fmt.Sprintf("F%d", i), Type: reflect.TypeOf(S{})}
+		}
+		c.ptr = reflect.New(reflect.StructOf(fs))
+		for i, v := range vals {
+			c.ptr.Elem().Field(i).Field(0).SetInt(int64(v))
+		}
+	} else if c.fixed {
 		c.ptr = reflect.New(reflect.ArrayOf(n, reflect.TypeOf(S{})))
 		for i, v := range vals {
 			c.ptr.Elem().Index(i).Field(0).SetInt(int64(v))
@@ -652,7 +692,70 @@ func runS(f []string) string {
 	default:
 		rel = relOf(g, e)
 	}
-	return wrap + " " + rel
+	return wrap + " " + rel + " to=" + relToOwn(vm, v, g, special)
+}
+
+// relToOwn: ExportTo(v, &x) with x of g's own type, relative to g.
+func relToOwn(vm *goja.Runtime, v goja.Value, g interface{}, special string) string {
+	if special == "js" {
+		if _, isObj := g.(*goja.Object); !isObj {
+			return "notGoData"
+		}
+	}
+	var dst reflect.Value
+	if g == nil {
+		dst = reflect.ValueOf(new(interface{}))
+	} else {
+		dst = reflect.New(reflect.TypeOf(g))
+	}
+	var err error
+	if m := recoverStr(func() { err = vm.ExportTo(v, dst.Interface()) }); m != "" {
+		return m
+	}
+	if err != nil {
+		return "err:" + common.OneLine(err.Error())
+	}
+	got := dst.Elem().Interface()
+	if g != nil {
+		st := reflect.TypeOf(g)
+		for st.Kind() == reflect.Ptr {
+			st = st.Elem()
+		}
+		if st.Kind() == reflect.Func {
+			return "func"
+		}
+	}
+	if special == "big" {
+		if g.(*big.Int) == nil {
+			if b, ok := got.(*big.Int); ok && b != nil && b.Sign() == 0 {
+				return "bigNilZero"
+			}
+			return "other"
+		}
+	}
+	if special == "js" {
+		if got == g {
+			return "deepEqual"
+		}
+		if o, ok := g.(*goja.Object); ok && o == nil && got.(*goja.Object) == nil {
+			return "deepEqual"
+		}
+		return "notEqual"
+	}
+	if reflect.DeepEqual(got, g) {
+		return "deepEqual"
+	}
+	rg, rv := reflect.ValueOf(g), reflect.ValueOf(got)
+	if rg.Kind() == reflect.Ptr && !rg.IsNil() && rv.IsNil() {
+		x := rg
+		for x.Kind() == reflect.Ptr && !x.IsNil() {
+			x = x.Elem()
+		}
+		if x.Kind() == reflect.Ptr {
+			return "nilChainCollapsed"
+		}
+	}
+	return fmt.Sprintf("notEqual:%#v", got)
 }
 
 // ---------------------------------------------------------------- T: random reflect-built types
@@ -1027,6 +1130,10 @@ func runP(f []string) string {
 	case "zooL":
 		vm.Set("a", &zoo.L)
 		goAppend = func() { zoo.L = append(zoo.L, Inner{7}, Inner{8}, Inner{9}) }
+	case "mapSimple":
+		vm.Set("a", map[string]interface{}{"0": 1, "k": "v", "Name": nil})
+	case "zooVal":
+		vm.Set("a", zoo)
 	case "nilFunc":
 		vm.Set("a", &struct {
 			F func(int) int
@@ -1105,6 +1212,10 @@ func runP(f []string) string {
 			src = "a[Symbol.iterator]; a[Symbol('x')] = 1"
 		case "neg":
 			src = "a[-1] = 1; a[-1]; delete a[-1]; a['x'] = 1; a['x']; a[1.5] = 2; a[100] = 1"
+		case "defnov":
+			src = "var ks = ['0', 'k', 'Name', 'A', 'zz', '" + arg(1) + "']; for (var q = 0; q < ks.length; q++) { try { Object.defineProperty(a, ks[q], {}) } catch (e) {} ; try { Object.defineProperty(a, ks[q], {enumerable: true}) } catch (e) {} }"
+		case "seal":
+			src = "try { Object.seal(a) } catch (e) {} ; try { Object.isFrozen(a); Object.isSealed(a) } catch (e) {}"
 		case "call":
 			src = "if (typeof a.F === 'function') a.F(1); if (typeof a.G === 'function') a.G(); if (a.M && typeof a.M.k === 'function') a.M.k(); if (typeof a[0] === 'function') a[0]()"
 		case "goappend":
@@ -1197,6 +1308,147 @@ func runE(rest string) string {
 	return out
 }
 
+// M <s|i> k=v,k=v | ops : histories on a wrapped map[string]S / map[int]S (no element cache: every read is a fresh copy)
+func runM(f []string) string {
+	if len(f) < 3 || f[2] != "|" {
+		return "BADLINE"
+	}
+	strKeys := f[0] == "s"
+	ms := map[string]S{}
+	mi := map[int]S{}
+	if f[1] != "-" {
+		for _, e := range strings.Split(f[1], ",") {
+			kv := strings.SplitN(e, "=", 2)
+			ms["k"+kv[0]] = S{atoi(kv[1])}
+			mi[atoi(kv[0])] = S{atoi(kv[1])}
+		}
+	}
+	vm := goja.New()
+	if strKeys {
+		vm.Set("a", ms)
+	} else {
+		vm.Set("a", mi)
+	}
+	acc := func(k string) string {
+		if strKeys {
+			return "a.k" + k
+		}
+		return "a[" + k + "]"
+	}
+	var handles []*goja.Object
+	var outs []string
+	dead := false
+	for _, tok := range f[3:] {
+		if dead {
+			outs = append(outs, "PANIC")
+			continue
+		}
+		p := strings.Split(tok, ":")
+		pre := ""
+		var v goja.Value
+		msg := recoverStr(func() {
+			switch p[0] {
+			case "get":
+				v, _ = vm.RunString(acc(p[1]))
+				if o, ok := v.(*goja.Object); ok {
+					n := -1
+					for i, h := range handles {
+						if h == o {
+							n = i
+						}
+					}
+					if n < 0 {
+						handles = append(handles, o)
+						n = len(handles) - 1
+					}
+					pre = fmt.Sprintf("g=%d ", n)
+				} else {
+					pre = "g=- "
+				}
+			case "set":
+				_, _ = vm.RunString(acc(p[1]) + " = {Field: " + p[2] + "}")
+			case "del":
+				_, _ = vm.RunString("delete " + acc(p[1]))
+			case "ww":
+				if w := atoi(p[1]); w < len(handles) {
+					_ = handles[w].Set("Field", atoi(p[2]))
+				}
+			case "gw":
+				ms["k"+p[1]] = S{atoi(p[2])}
+				mi[atoi(p[1])] = S{atoi(p[2])}
+			case "gd":
+				delete(ms, "k"+p[1])
+				delete(mi, atoi(p[1]))
+			default:
+				pre = "BADOP "
+			}
+		})
+		if strings.HasPrefix(msg, "PANIC") {
+			dead = true
+			outs = append(outs, "PANIC")
+			continue
+		}
+		var ents []string
+		for k := 0; k < 10; k++ {
+			if strKeys {
+				if e, ok := ms[fmt.Sprintf("k%d", k)]; ok {
+					ents = append(ents, fmt.Sprintf("%d:%d", k, e.Field))
+				}
+			} else if e, ok := mi[k]; ok {
+				ents = append(ents, fmt.Sprintf("%d:%d", k, e.Field))
+			}
+		}
+		hs := make([]string, len(handles))
+		for i, h := range handles {
+			hs[i] = h.Get("Field").String()
+		}
+		outs = append(outs, fmt.Sprintf("%sm={%s} h=[%s]", pre, strings.Join(ents, ","), strings.Join(hs, ",")))
+	}
+	return strings.Join(outs, " ; ")
+}
+
+// X o:0=5,1=r1 a:0=r0 ...  : build the script graph, Export() it, print it canonically (sharing by pointer identity)
+func runX(f []string) string {
+	var b strings.Builder
+	b.WriteString("var n = [];\n")
+	for i, tok := range f {
+		if strings.HasPrefix(tok, "a:") {
+			fmt.Fprintf(&b, "n[%d] = [];\n", i)
+		} else {
+			fmt.Fprintf(&b, "n[%d] = {};\n", i)
+		}
+	}
+	for i, tok := range f {
+		p := strings.SplitN(tok, ":", 2)
+		if len(p) != 2 || p[1] == "" {
+			continue
+		}
+		for _, fl := range strings.Split(p[1], ",") {
+			kv := strings.SplitN(fl, "=", 2)
+			val := kv[1]
+			if strings.HasPrefix(val, "r") {
+				val = "n[" + val[1:] + "]"
+			}
+			if p[0] == "a" {
+				fmt.Fprintf(&b, "n[%d][%s] = %s;\n", i, kv[0], val)
+			} else {
+				fmt.Fprintf(&b, "n[%d].k%s = %s;\n", i, kv[0], val)
+			}
+		}
+	}
+	b.WriteString("n[0]")
+	vm := goja.New()
+	v, err := vm.RunString(b.String())
+	if err != nil {
+		return "JSERR " + common.OneLine(err.Error())
+	}
+	var e interface{}
+	if m := recoverStr(func() { e = v.Export() }); m != "" {
+		return m
+	}
+	return canon(reflect.ValueOf(&e).Elem(), map[uintptr]int{}, 0)
+}
+
 func main() {
 	common.Loop(func(line string) string {
 		f := strings.Fields(line)
@@ -1205,7 +1457,9 @@ func main() {
 		}
 		switch f[0] {
 		case "W":
-			return runW(f[1:])
+			return runW(f[1:], false)
+		case "V":
+			return runW(f[1:], true)
 		case "N":
 			return runN(f[1:])
 		case "F":
@@ -1218,6 +1472,10 @@ func main() {
 			return runT(f[1:])
 		case "P":
 			return runP(f[1:])
+		case "X":
+			return runX(f[1:])
+		case "M":
+			return runM(f[1:])
 		case "E":
 			return runE(strings.TrimSpace(strings.TrimPrefix(line, "E")))
 		}
